@@ -104,7 +104,11 @@ def generate(tape, tier="quick"):
             _, t, c = allp[pi]
             events.append(["PULL", c, int(t) if t.denominator == 1 else t])
             pi += 1
-    return {"engine": "E3", "src": {"units": units}, "consumers": cons, "events": events, "kind": kind}
+    src = {"units": units}
+    if tape.chance(1, 4):
+        from ..grids import gen_structured
+        src["grid"] = gen_structured(tape, max_dim=2, max_len=3)
+    return {"engine": "E3", "src": src, "consumers": cons, "events": events, "kind": kind}
 
 
 def execute(sc):
@@ -119,6 +123,8 @@ def execute(sc):
     pubs = [(e[1], e[2]) for e in sc["events"] if e[0] == "PUSH"]
     prev = [None, None]
     scale = 2.0 if sc["consumers"][0]["chain"][0]["kind"] == "scale" else 1.0
+    rig = r["rig"]
+    base0 = 0.0 if rig.base is None else float(rig.base.reshape(-1)[0])    # logged value = first grid element
     for e in log:
         if e[0] != "PULL" or e[3] != "val":
             continue
@@ -137,7 +143,7 @@ def execute(sc):
                 lo = pubs[i - 1][0] if i > 0 else tp
                 hi = pubs[i + 1][0] if i + 1 < len(pubs) else tp
                 if Fraction(hi) > prev[ci] and Fraction(lo) < t:
-                    contrib.append(vp * scale)
+                    contrib.append((vp + base0) * scale)
             if contrib and done and not (min(contrib) - 1e-9 * (1 + abs(min(contrib))) <= val <= max(contrib) + 1e-9 * (1 + abs(max(contrib)))):
                 viol.append({"oracle": "avg-range", "kind": "range", "consumer": ci,
                              "msg": f"average {val} over ({prev[ci]}, {t}] outside the range [{min(contrib)}, {max(contrib)}] of contributing values"})
